@@ -17,6 +17,7 @@ import contextlib, glob as globmod, importlib, importlib.util, io, json, os, shu
 from pathlib import Path
 
 BASE = 1_600_000_000
+TICK_NS = 250_000_000      # one model clock tick = a quarter of a second: successive writes usually fall into the SAME second
 TN = ["mdc", "emc"]
 DISTRACTORS = ["mdc.cpython-312.pyc", "emc.cpython-312.pyc", "mdcx.k1-101.py312.nbi", "helix.k1-101.py312.1.nbc",
                "mdc.k1-101.py312.nbx", "xemc.k1-101.py312.nbi"]
@@ -69,7 +70,8 @@ class Scratch:
     def put(self, i, mtime, content):
         p = self.path(i)
         p.write_text(str(content))
-        os.utime(p, (BASE + mtime, BASE + mtime))
+        ns = BASE * 1_000_000_000 + mtime * TICK_NS
+        os.utime(p, ns=(ns, ns))
         self.names[p.name] = i
 
     def listing(self):
@@ -78,7 +80,7 @@ class Scratch:
         for d in (self.geom, self.pyc):
             for p in d.iterdir():
                 if p.is_file() and p.name in self.names:
-                    res.append([self.names[p.name], int(os.path.getmtime(p)) - BASE, int(p.read_text())])
+                    res.append([self.names[p.name], (os.stat(p).st_mtime_ns - BASE * 1_000_000_000) // TICK_NS, int(p.read_text())])
         return sorted(res)
 
     def distractors_ok(self):
@@ -294,9 +296,9 @@ class Scratch:
                     if st:
                         # a stale cache that sat beside an OLDER cache of the same table before this import: "remove all on stale"
                         # must have taken it, whatever its own mtime and however it came to be stale
-                        beside = [f for f in st if any(c[0] % 2 == f[0] % 2 and c[1] < tabs.get(f[0] % 2, -1) for c in caches_before)]
+                        beside = [f for f in st if f[1] >= tabs.get(f[0] % 2, -1) and any(c[0] % 2 == f[0] % 2 and c[1] < tabs.get(f[0] % 2, -1) for c in caches_before)]
                         held = [f for f in st if f not in beside and f[0] in self.dirty_built]
-                        if beside:
+                        if beside and len(beside) == len(st):
                             kind = "stale-cache-kept-beside-older-cache"
                         elif len(held) == len(st):
                             # the only way the mtime criterion can miss: every older cache is gone and the stale one was written
